@@ -7,6 +7,7 @@ import (
 	"os"
 	"path/filepath"
 	"strconv"
+	"strings"
 	"syscall"
 	"time"
 
@@ -305,7 +306,16 @@ func c08containerReport(c container.Environment) (*report, error) {
 func c08verdicts(x *mc.X) {
 	setup := x.Pick("setup", "ptrace", "unshare", "container", "container-syncafter")
 	what := x.Pick("overrun", "rlimit-cpu", "rlimit-fsize", "time-bound", "memory-bound")
+	// how the program ends once it is over the runner's bound: the verdict is about the measurement, not about the ending
+	ending := "exit 0"
+	if (what == "time-bound" || what == "memory-bound") && (setup == "ptrace" || setup == "unshare") {
+		ending = x.Pick("ending", "exit 0", "exit 3", "raise 11")
+	}
 	if x.Dry() {
+		return
+	}
+	if ending == "raise 11" && setup == "unshare" {
+		x.Outcome("n/a:namespace-init-discards-self-raised-signals")
 		return
 	}
 	var argv []string
@@ -330,11 +340,11 @@ func c08verdicts(x *mc.X) {
 			return
 		}
 	case "time-bound":
-		argv = []string{probe("burn"), "cpufor", "300"}
+		argv = append([]string{probe("burn"), "cpufor", "300"}, strings.Fields(ending)...)
 		limit.TimeLimit = 100 * time.Millisecond
 		want = runner.StatusTimeLimitExceeded
 	case "memory-bound":
-		argv = []string{probe("burn"), "mem", strconv.Itoa(96 << 20)}
+		argv = append([]string{probe("burn"), "mem", strconv.Itoa(96 << 20)}, strings.Fields(ending)...)
 		limit.MemoryLimit = runner.Size(32 << 20)
 		want = runner.StatusMemoryLimitExceeded
 	}
@@ -366,11 +376,11 @@ func c08verdicts(x *mc.X) {
 		}
 	}
 	x.Note("result", fmt.Sprintf("%s time=%v mem=%v exit=%d %s", statusName(res.Status), res.Time, res.Memory, res.ExitStatus, res.Error))
-	x.Distinct(fmt.Sprint("v", setup, what, res.Status))
+	x.Distinct(fmt.Sprint("v", setup, what, ending, res.Status))
 	x.Outcome("verdict:" + statusName(res.Status))
 	if res.Status != want {
-		x.Failf(fmt.Sprintf("C08/%s/%s-verdict-%s", setup, what, statusName(res.Status)), "%s under %s: %s (time %v, memory %v, %s), expected %s",
-			what, setup, statusName(res.Status), res.Time, res.Memory, res.Error, statusName(want))
+		x.Failf(fmt.Sprintf("C08/%s/%s-verdict-%s", setup, what, statusName(res.Status)), "%s (program then ends with %s) under %s: %s (time %v, memory %v, %s), expected %s",
+			what, ending, setup, statusName(res.Status), res.Time, res.Memory, res.Error, statusName(want))
 		return
 	}
 	switch what {
